@@ -522,7 +522,8 @@ Lemma runs_add ex q p e : ex q = true -> (forall q', e q' = None) -> vnonneg (p_
   exists e1, aruns ex (p_id p) (add_secs q p) e e1 /\ (forall q', q' <> q -> e1 q' = None) /\ quiet_opt (e1 q).
 Proof.
   intros Hq Hnone Hreq. set (id := p_id p). pose proof (npreq_nonneg p Hreq) as Hnp.
-  destruct (aok_req q p None (Some p) (or_intror eq_refl) (or_introl eq_refl) (or_intror ltac:(discriminate))) as [Hok1 Hok2].
+  assert (Hne0 : (@None pod) <> None \/ Some p <> None) by (right; discriminate).
+  destruct (aok_req q p None (Some p) (or_intror eq_refl) (or_introl eq_refl) Hne0) as [Hok1 Hok2].
   fold id in Hok1, Hok2.
   set (e1 := fupd e q (Some (e0 id))).
   set (pi2 := set_req (e0 id) (Some p)). set (e2 := fupd e1 q (Some pi2)).
@@ -554,7 +555,8 @@ Lemma runs_remove ex q p e pi : ex q = true -> e q = Some pi ->
              (forall q', q' <> q -> e1 q' = e q') /\ e1 q = None.
 Proof.
   intros Hq He Ha Hn Hqu. set (id := p_id p).
-  destruct (aok_req q p (Some p) None (or_introl eq_refl) (or_intror eq_refl) (or_introl ltac:(discriminate))) as [Hok1 Hok2].
+  assert (Hne0 : Some p <> None \/ (@None pod) <> None) by (left; discriminate).
+  destruct (aok_req q p (Some p) None (or_introl eq_refl) (or_intror eq_refl) Hne0) as [Hok1 Hok2].
   fold id in Hok1, Hok2.
   set (pi1 := set_req pi None). set (e1 := fupd e q (Some pi1)).
   assert (S1 : astep ex id (AReq q id (Some p) None) e e1) by (apply as_req; auto; apply vnonneg_zero).
@@ -587,7 +589,8 @@ Lemma runs_remove_used_first ex q p e pi : ex q = true -> e q = Some pi ->
              (forall q', q' <> q -> e1 q' = e q') /\ e1 q = None.
 Proof.
   intros Hq He Ha Hn Hqu. set (id := p_id p).
-  destruct (aok_req q p (Some p) None (or_introl eq_refl) (or_intror eq_refl) (or_introl ltac:(discriminate))) as [Hok1 Hok2].
+  assert (Hne0 : Some p <> None \/ (@None pod) <> None) by (left; discriminate).
+  destruct (aok_req q p (Some p) None (or_introl eq_refl) (or_intror eq_refl) Hne0) as [Hok1 Hok2].
   fold id in Hok1, Hok2.
   destruct (pi_asg pi) eqn:Easg.
   - destruct (quiet_asg _ Hqu Easg) as [Hu Hun].
@@ -595,7 +598,7 @@ Proof.
     set (pi2 := set_req pi1 None). set (e2 := fupd e1 q (Some pi2)).
     exists (fupd e2 q None). refine (conj _ (conj _ _)).
     + cbn [app]. apply ar_cons with (e1 := e1); [reflexivity | exact Hok2 | |].
-      * apply as_used; auto; try apply vnonneg_zero; congruence.
+      * apply as_used; auto; try apply vnonneg_zero; cbn [oreq onp]; congruence.
       * apply ar_cons with (e1 := e2); [reflexivity | exact Hok1 | |].
         -- apply as_req; auto; try apply vnonneg_zero. unfold e1. apply fupd_same.
         -- apply ar_cons with (e1 := fupd e2 q None); [reflexivity | exact I | | constructor].
@@ -650,7 +653,7 @@ Proof.
       * apply ar_cons with (e1 := e1); [reflexivity | exact Hok1 | exact S1|].
         apply ar_cons with (e1 := e2); [reflexivity | exact I | apply as_asg; [exact Hq | unfold e1; apply fupd_same]|].
         apply ar_cons with (e1 := e3); [reflexivity | exact Hok3 | | constructor].
-        apply as_used; auto; [unfold e2; apply fupd_same | cbn; exact Hu | cbn; exact Hun].
+        apply as_used; auto; try (unfold e2; apply fupd_same); try (cbn; assumption).
       * intros q' Hne. unfold e3, e2, e1. rewrite !fupd_other by exact Hne. reflexivity.
       * unfold e3. rewrite fupd_same. cbn. unfold pi_quiet. cbn. rewrite !veqb_refl. reflexivity.
     + exists e1. refine (conj _ (conj _ _)).
@@ -658,3 +661,190 @@ Proof.
       * intros q' Hne. unfold e1. rewrite !fupd_other by exact Hne. reflexivity.
       * unfold e1. rewrite fupd_same. cbn. unfold pi_quiet. cbn. rewrite Easg, Hu, Hun. reflexivity.
 Qed.
+
+(* ---------- facts about a pod's entries in a consistent state ---------- *)
+
+Lemma ev_in s q id pi : ev s id q = Some pi ->
+  exists_q s q = true /\ In pi (st_p s q) /\ pi_id pi = id.
+Proof.
+  unfold ev, find_pod. destruct (exists_q s q); [|discriminate]. intros H.
+  destruct (find_some_in _ _ _ H). auto.
+Qed.
+
+Lemma ev_quiet s id q : Inv s -> quiet_opt (ev s id q).
+Proof.
+  intros HI. destruct (ev s id q) as [pi|] eqn:E; [|exact I]. cbn.
+  destruct (ev_in _ _ _ _ E) as (Hex & Hin & _). apply exists_q_find in Hex. destruct Hex as [qq Hf].
+  pose proof (inv_quiet_at _ _ _ HI Hf) as Hq. rewrite forallb_forall in Hq. apply Hq. exact Hin.
+Qed.
+
+Lemma ev_none_other s q id q' : nowhere_else s q id = true -> q' <> q -> ev s id q' = None.
+Proof.
+  intros Hnw Hne. unfold ev, find_pod. destruct (exists_q s q') eqn:Ex; [|reflexivity].
+  apply exists_q_find in Ex. destruct Ex as [qq Hf].
+  unfold nowhere_else in Hnw. rewrite forallb_forall in Hnw.
+  specialize (Hnw qq (find_in _ _ _ Hf)). rewrite (find_name _ _ _ Hf) in Hnw.
+  apply orb_prop in Hnw. destruct Hnw as [E|E]; [apply Z.eqb_eq in E; contradiction|].
+  apply negb_true_iff, has_pod_false in E. apply (find_notin id _ E).
+Qed.
+
+Lemma ev_none_here s q id : exists_q s q = false \/ has_pod (st_p s q) id = false -> ev s id q = None.
+Proof.
+  intros [H|H]; unfold ev, find_pod; [rewrite H; reflexivity|].
+  destruct (exists_q s q); [|reflexivity]. apply has_pod_false in H. apply (find_notin id _ H).
+Qed.
+
+Lemma ev_some_here s q id : exists_q s q = true -> has_pod (st_p s q) id = true -> exists pi, ev s id q = Some pi.
+Proof.
+  intros Hex Hh. unfold ev, find_pod. rewrite Hex.
+  destruct (List.find (fun pi => pi_id pi =? id) (st_p s q)) as [pi|] eqn:E; [eauto|].
+  apply find_none_notin in E. apply has_pod_in in Hh. contradiction.
+Qed.
+
+Lemma ev_matches s q p pi : matches s q p = true -> ev s (p_id p) q = Some pi ->
+  pi_areq pi = p_req p /\ pi_anp pi = p_npreq p.
+Proof.
+  unfold matches, ev. intros Hm He. rewrite He in Hm. apply andb_prop in Hm. destruct Hm as [H1 H2].
+  apply veqb_eq in H1. apply veqb_eq in H2. auto.
+Qed.
+
+Lemma ev_is_asg s q id pi : Inv s -> ev s id q = Some pi -> is_asg s q id = pi_asg pi.
+Proof.
+  intros HI He. destruct (ev_split s q id pi (inv_invq _ HI) He) as (qq & ps1 & ps2 & Hf & Hsp).
+  apply (is_asg_split s q qq id ps1 pi ps2 Hf Hsp).
+Qed.
+
+Definition op_pod (o : op) : Z :=
+  match o with
+  | OpPodAdd _ p | OpPodDelete _ p => p_id p
+  | OpPodUpdate _ _ pn _ => p_id pn
+  | _ => 0
+  end.
+Definition rl_op (o : op) : Prop :=
+  match o with OpPodAdd _ _ | OpPodUpdate _ _ _ _ | OpPodDelete _ _ => True | _ => False end.
+
+Lemma quiet_from_parts (e e1 : Z -> option pinfo) q :
+  (forall q', q' <> q -> e1 q' = e q') -> quiet_opt (e1 q) -> (forall q', quiet_opt (e q')) ->
+  forall q', quiet_opt (e1 q').
+Proof.
+  intros H1 H2 H3 q'. destruct (Z.eq_dec q' q) as [->|E]; [exact H2 | rewrite (H1 _ E); apply H3].
+Qed.
+
+Theorem sections_tok s o : Inv s -> rl_op o -> wf_op s o = true ->
+  tok (exists_q s) (op_pod o) (ev s (op_pod o)) (sections s o).
+Proof.
+  intros HI Hrl Hwf. pose proof (fun q' => ev_quiet s (op_pod o) q' HI) as Hquiet.
+  destruct o; try contradiction; cbn [op_pod sections wf_op] in *.
+  - (* OnPodAdd *)
+    apply andb_prop in Hwf. destruct Hwf as [Hwf Hnw]. apply andb_prop in Hwf. destruct Hwf as [Hreq Hm].
+    apply vnonnegb_iff in Hreq.
+    destruct (p_ign p); [exact Hquiet|].
+    destruct (exists_q s q && negb (has_pod (st_p s q) (p_id p))) eqn:E; [|exact Hquiet].
+    apply andb_prop in E. destruct E as [Hex Hh]. apply negb_true_iff in Hh.
+    assert (Hnone : forall q', ev s (p_id p) q' = None).
+    { intros q'. destruct (Z.eq_dec q' q) as [->|Hne]; [apply ev_none_here; auto | eapply ev_none_other; eauto]. }
+    destruct (runs_add (exists_q s) q p _ Hex Hnone Hreq) as (e1 & Hr & Ho & Hq).
+    apply (tok_of_runs _ _ _ _ _ Hr). intros q'. destruct (Z.eq_dec q' q) as [->|Hne]; [exact Hq | rewrite (Ho _ Hne); exact I].
+  - (* OnPodUpdate *)
+    apply andb_prop in Hwf. destruct Hwf as [Hwf Hnw]. apply andb_prop in Hwf. destruct Hwf as [Hwf Hm].
+    apply andb_prop in Hwf. destruct Hwf as [Hid Hreq]. apply Z.eqb_eq in Hid. apply vnonnegb_iff in Hreq.
+    rewrite <- Hid in Hnw |- *.
+    destruct (qo =? qn) eqn:Eq.
+    + apply Z.eqb_eq in Eq. subst qo.
+      destruct (exists_q s qn) eqn:Hex; [|exact Hquiet].
+      destruct (p_ign pn); cbn [negb].
+      * destruct (has_pod (st_p s qn) (p_id pn)) eqn:Hh; [|exact Hquiet].
+        destruct (ev_some_here s qn _ Hex Hh) as [pi He].
+        assert (He' : ev s (p_id po) qn = Some pi) by (rewrite <- Hid; exact He).
+        destruct (ev_matches s qn po pi Hm He') as [Ha Hn].
+        pose proof (Hquiet qn) as Hqpi. rewrite He in Hqpi. cbn in Hqpi.
+        rewrite (ev_is_asg s qn _ pi HI He).
+        destruct (runs_remove (exists_q s) qn po _ pi Hex He' Ha Hn Hqpi) as (e1 & Hr & Ho & Hq).
+        rewrite <- Hid in Hr, Ho.
+        apply (tok_of_runs _ _ _ _ _ Hr).
+        apply (quiet_from_parts _ e1 qn Ho); [rewrite Hq; exact I | exact Hquiet].
+      * destruct (has_pod (st_p s qn) (p_id pn)) eqn:Hh.
+        -- destruct (ev_some_here s qn _ Hex Hh) as [pi He].
+           assert (He' : ev s (p_id po) qn = Some pi) by (rewrite <- Hid; exact He).
+           destruct (ev_matches s qn po pi Hm He') as [Ha Hn].
+           pose proof (Hquiet qn) as Hqpi. rewrite He in Hqpi. cbn in Hqpi.
+           rewrite (ev_is_asg s qn _ pi HI He).
+           destruct (runs_update (exists_q s) qn pn po _ pi Hex He (eq_sym Hid) Ha Hn Hqpi Hreq) as (e1 & Hr & Ho & Hq).
+           apply (tok_of_runs _ _ _ _ _ Hr). apply (quiet_from_parts _ e1 qn Ho Hq Hquiet).
+        -- assert (Hnone : forall q', ev s (p_id pn) q' = None).
+           { intros q'. destruct (Z.eq_dec q' qn) as [->|Hne]; [apply ev_none_here; auto | eapply ev_none_other; eauto]. }
+           destruct (runs_add (exists_q s) qn pn _ Hex Hnone Hreq) as (e1 & Hr & Ho & Hq).
+           apply (tok_of_runs _ _ _ _ _ Hr). intros q'. destruct (Z.eq_dec q' qn) as [->|Hne]; [exact Hq | rewrite (Ho _ Hne); exact I].
+    + apply Z.eqb_neq in Eq.
+      (* the removal half leaves the pod cached nowhere *)
+      assert (Hpart1 : exists e1, aruns (exists_q s) (p_id pn)
+                (if exists_in s qo (p_id pn)
+                 then (if is_asg s qo (p_id pn) then [AUsed qo (p_id pn) (Some po) None] else [])
+                      ++ [AReq qo (p_id pn) (Some po) None; ACacheDel qo (p_id pn)] else []) (ev s (p_id pn)) e1 /\
+                forall q', e1 q' = None).
+      { destruct (exists_in s qo (p_id pn)) eqn:Ein.
+        - apply exists_in_iff in Ein. destruct Ein as [[qq Hf] Hin].
+          assert (Hex : exists_q s qo = true) by (apply exists_q_find; eauto).
+          assert (Hh : has_pod (st_p s qo) (p_id pn) = true) by (apply has_pod_in; exact Hin).
+          destruct (ev_some_here s qo _ Hex Hh) as [pi He].
+          assert (He' : ev s (p_id po) qo = Some pi) by (rewrite <- Hid; exact He).
+          destruct (ev_matches s qo po pi Hm He') as [Ha Hn].
+          pose proof (Hquiet qo) as Hqpi. rewrite He in Hqpi. cbn in Hqpi.
+          rewrite (ev_is_asg s qo _ pi HI He).
+          destruct (runs_remove_used_first (exists_q s) qo po _ pi Hex He' Ha Hn Hqpi) as (e1 & Hr & Ho & Hq).
+          rewrite <- Hid in Hr, Ho.
+          exists e1. split; [exact Hr|].
+          intros q'. destruct (Z.eq_dec q' qo) as [->|Hne]; [exact Hq|].
+          rewrite (Ho _ Hne). eapply ev_none_other; eauto.
+        - exists (ev s (p_id pn)). split; [constructor|]. intros q'.
+          destruct (Z.eq_dec q' qo) as [->|Hne]; [|eapply ev_none_other; eauto].
+          apply ev_none_here. unfold exists_in in Ein. apply andb_false_iff in Ein. exact Ein. }
+      destruct Hpart1 as (e1 & Hr1 & Hnone1).
+      eapply tok_app_runs; [exact Hr1|].
+      destruct (exists_q s qn && negb (has_pod (st_p s qn) (p_id pn)) && negb (p_ign pn)) eqn:E.
+      * apply andb_prop in E. destruct E as [E _]. apply andb_prop in E. destruct E as [Hex _].
+        destruct (runs_add (exists_q s) qn pn e1 Hex Hnone1 Hreq) as (e2 & Hr & Ho & Hq).
+        apply (tok_of_runs _ _ _ _ _ Hr). intros q'. destruct (Z.eq_dec q' qn) as [->|Hne]; [exact Hq | rewrite (Ho _ Hne); exact I].
+      * intros q'. rewrite Hnone1. exact I.
+  - (* OnPodDelete *)
+    destruct (exists_in s q (p_id p)) eqn:Ein; [|exact Hquiet].
+    apply exists_in_iff in Ein. destruct Ein as [[qq Hf] Hin].
+    assert (Hex : exists_q s q = true) by (apply exists_q_find; eauto).
+    assert (Hh : has_pod (st_p s q) (p_id p) = true) by (apply has_pod_in; exact Hin).
+    destruct (ev_some_here s q _ Hex Hh) as [pi He].
+    destruct (ev_matches s q p pi Hwf He) as [Ha Hn].
+    pose proof (Hquiet q) as Hqpi. rewrite He in Hqpi. cbn in Hqpi.
+    rewrite (ev_is_asg s q _ pi HI He).
+    destruct (runs_remove (exists_q s) q p _ pi Hex He Ha Hn Hqpi) as (e1 & Hr & Ho & Hq).
+    apply (tok_of_runs _ _ _ _ _ Hr). apply (quiet_from_parts _ e1 q Ho); [rewrite Hq; exact I | exact Hquiet].
+Qed.
+
+(* ---------- the theorem ---------- *)
+
+Lemma forall2_map {A B C} (R : B -> C -> Prop) (f : A -> B) (g : A -> C) l :
+  (forall x, In x l -> R (f x) (g x)) -> Forall2 R (map f l) (map g l).
+Proof.
+  induction l as [|a t IH]; intros H; cbn [map]; constructor.
+  - apply H. left. reflexivity.
+  - apply IH. intros x Hx. apply H. right. exact Hx.
+Qed.
+
+Theorem any_interleaving s0 ops l :
+  Inv2 s0 ->
+  (forall o, In o ops -> rl_op o /\ wf_op s0 o = true) ->
+  NoDup (map op_pod ops) ->
+  interleaving (map (sections s0) ops) l ->
+  Inv2 (exec act s0 l) /\ state_code (exec act s0 l) = 0.
+Proof.
+  intros [HI Hspec] Hops Hnd Hil.
+  assert (HG : G s0 (map (sections s0) ops) (map op_pod ops)).
+  { constructor.
+    - apply inv_invq. exact HI.
+    - exact Hspec.
+    - exact Hnd.
+    - apply forall2_map. intros o Ho. destruct (Hops o Ho) as [Hrl Hwf]. apply sections_tok; assumption.
+    - intros q id pi He _. pose proof (ev_quiet s0 id q HI) as H. rewrite He in H. exact H. }
+  pose proof (conc_inv _ _ Hil s0 _ HG) as H. split; [exact H|].
+  apply state_code_ok, inv_state_ok. apply H.
+Qed.
+
